@@ -65,3 +65,23 @@ def prog_lower():
         pass
 
     return "A"
+
+
+def prog_herm3():
+    with "A":
+        start = 0
+        f("H")
+
+    with "Ad":
+        start = 0
+        "A".adj
+
+    with "M":
+        start = 0
+        hermitian
+        "Ad @ H @ A" / 2 + "H"
+
+    with "Ad @ H @ A":
+        hermitian
+
+    return "M", "A"
